@@ -24,7 +24,7 @@ PROP = {'counts': {'quick': 0, 'thorough': 0},
          'exit. The extracted table cross-checks each reported race (must touch a location the table flags, '
          'or uncovered code). non-trivial = the stress phase ended normally with >= 100 calls and >= 1 '
          'SSTable written, or a finding; distinct by seed/mix/build'
-         " Added later: gen/LockLeaks.v (gofacts/lockleaks.go: no return / continue / break leaves an explicit Lock()/Unlock() region with the mutex locked, and no Unlock is reached on a path that has released the mutex already; one reviewed entry), a first-samples prologue of the stress binary (fresh statistics collectors read while names are first recorded) and slow log rotations in the verif stress build (writes and commits fail with 'WAL is rotating', so error paths run under load).",
+         " Added later: gen/LockLeaks.v (gofacts/lockleaks.go: no return / continue / break leaves an explicit Lock()/Unlock() region with the mutex locked, and no Unlock is reached on a path that has released the mutex already; one reviewed entry), gen/NilChecks.v (gofacts/nilchecks.go: the nil answer of a look-up function is tested before the result is used), a first-samples prologue of the stress binary (fresh statistics collectors read while names are first recorded) and slow log rotations in the verif stress build (writes and commits fail with 'WAL is rotating', so error paths run under load).",
  'trusted_base': ['C07 lock table (gofacts/locks.go) — every item is an approximation the Coq lemmas do NOT '
                   'cover: (1) a lock / location is Type.field, one instance per type; a pointer field '
                   'initialised with &x.mutex is that mutex (TransactionImpl.rwLock = Manager.txLock); (2) '
